@@ -1022,10 +1022,22 @@ namespace detail {
             }
             if (lhs.is_int64() && rhs.is_int64())
             {
-                return Json(((lhs.template as<int64_t>() / rhs.template as<int64_t>())), semantic_tag::none);
+                const int64_t divisor = rhs.template as<int64_t>();
+                if (divisor == 0)
+                {
+                    return Json::null(); // integer division by zero is undefined
+                }
+                if (divisor != -1) // the most negative value divided by -1 is not representable, use doubles
+                {
+                    return Json(((lhs.template as<int64_t>() / divisor)), semantic_tag::none);
+                }
             }
-            if (lhs.is_uint64() && rhs.is_uint64())
+            else if (lhs.is_uint64() && rhs.is_uint64())
             {
+                if (rhs.template as<uint64_t>() == 0)
+                {
+                    return Json::null();
+                }
                 return Json((lhs.template as<uint64_t>() / rhs.template as<uint64_t>()), semantic_tag::none);
             }
             return Json((lhs.as_double() / rhs.as_double()), semantic_tag::none);
@@ -1065,10 +1077,23 @@ namespace detail {
             }
             if (lhs.is_int64() && rhs.is_int64())
             {
-                return Json(((lhs.template as<int64_t>() % rhs.template as<int64_t>())), semantic_tag::none);
+                const int64_t divisor = rhs.template as<int64_t>();
+                if (divisor == 0)
+                {
+                    return Json::null(); // integer remainder by zero is undefined
+                }
+                if (divisor == -1)
+                {
+                    return Json(int64_t(0), semantic_tag::none); // avoids the overflow of the most negative value
+                }
+                return Json(((lhs.template as<int64_t>() % divisor)), semantic_tag::none);
             }
             if (lhs.is_uint64() && rhs.is_uint64())
             {
+                if (rhs.template as<uint64_t>() == 0)
+                {
+                    return Json::null();
+                }
                 return Json((lhs.template as<uint64_t>() % rhs.template as<uint64_t>()), semantic_tag::none);
             }
             return Json(fmod(lhs.as_double(), rhs.as_double()), semantic_tag::none);
